@@ -1,4 +1,5 @@
 import Proofs.Lookup
+import Gen.C09Switch
 /-!
 # C09  Methods, embedding, interfaces and type switches behave as in Go
 
@@ -272,6 +273,19 @@ theorem lookup_map_append (rt : Option Nat → Nat) (k : Nat) (j : Nat) (l : Lis
       simp only [h1, h2, Bool.false_or]
       exact ih
 
+theorem mem_takeWhile' {β : Type} (p : β → Bool) (l : List β) (x : β) (h : x ∈ l.takeWhile p) :
+    p x = true ∧ x ∈ l := by
+  induction l with
+  | nil => simp at h
+  | cons a l ih =>
+    simp only [List.takeWhile_cons] at h
+    by_cases hp : p a = true
+    · simp only [hp, if_true, List.mem_cons] at h
+      rcases h with rfl | h
+      · exact ⟨hp, by simp⟩
+      · exact ⟨(ih h).1, by simp [(ih h).2]⟩
+    · simp [hp] at h
+
 theorem takeWhile_any {β : Type} (p q : β → Bool) (l : List β) (h : (l.takeWhile p).any q = true) :
     l.any q = true := by
   induction l with
@@ -285,12 +299,20 @@ theorem takeWhile_any {β : Type} (p q : β → Bool) (l : List β) (h : (l.take
       · exact Or.inr (ih h)
     · simp [hp] at h
 
-/-- the jump table of `typeswitchGotoMap` only ever jumps to the clause the sequential tests
-    would have chosen -/
-theorem jump_table_sound (rt : Option Nat → Nat) (conc : Option Nat → Bool) (dyn : Option Nat) :
+/-- the jump table of `typeswitchGotoMap`, built by the rule of `typecaseHelper.add` AS WRITTEN
+    (`else if seen.AllConcrete`: initial run of concrete case types only), only ever jumps to the
+    clause the sequential tests would have chosen.  Hypotheses on the clause test `ct`:
+    `hconc`  an operand whose reflect type equals that of a concrete case type of `c` passes `c`;
+    `hconc2` a clause with concrete types only is passed only by such an operand.
+    (Both hold for an `interface{}` tag, `ctEmpty_*` below; with interface case types anywhere.) -/
+theorem jump_table_sound (rt : Option Nat → Nat) (conc : Option Nat → Bool) (ct : Clause → Bool)
+    (dyn : Option Nat)
+    (hconc : ∀ c : Clause, c.types.any (fun ty => conc ty && rt ty == rt dyn) = true → ct c = true)
+    (hconc2 : ∀ c : Clause, c.types.all conc = true → ct c = true →
+      c.types.any (fun ty => rt ty == rt dyn) = true) :
     ∀ (cs : List Clause) (j i : Nat),
       ((tsConcretePrefix conc cs j).map (fun e => (rt e.1, e.2))).lookup (rt dyn) = some i →
-      tsSequential (fun ty => rt ty == rt dyn) cs j = some i := by
+      tsSequential ct cs j = some i := by
   intro cs
   induction cs with
   | nil => intro j i h; simp [tsConcretePrefix] at h
@@ -300,7 +322,7 @@ theorem jump_table_sound (rt : Option Nat → Nat) (conc : Option Nat → Bool) 
     unfold tsSequential
     by_cases hd : c.isDefault = true
     · rw [if_pos hd] at h
-      have : ¬ (c.isDefault = false ∧ c.types.any (fun ty => rt ty == rt dyn) = true) := by simp [hd]
+      have : ¬ (c.isDefault = false ∧ ct c = true) := by simp [hd]
       rw [if_neg this]
       exact ih _ _ h
     · have hd' : c.isDefault = false := by simpa using hd
@@ -314,10 +336,17 @@ theorem jump_table_sound (rt : Option Nat → Nat) (conc : Option Nat → Bool) 
         by_cases hany : c.types.any (fun ty => rt ty == rt dyn) = true
         · rw [if_pos hany] at h
           injection h with h; subst h
-          rw [if_pos ⟨hd', hany⟩]
+          have hc : ct c = true := by
+            apply hconc
+            rw [List.any_eq_true] at hany ⊢
+            obtain ⟨ty, hty, hrt⟩ := hany
+            refine ⟨ty, hty, ?_⟩
+            have := (List.all_eq_true.mp hall) ty hty
+            simp [this, hrt]
+          rw [if_pos ⟨hd', hc⟩]
         · rw [if_neg hany] at h
-          have : ¬ (c.isDefault = false ∧ c.types.any (fun ty => rt ty == rt dyn) = true) := fun hh => hany hh.2
-          rw [if_neg this]
+          have hc : ¬ ct c = true := fun hh => hany (hconc2 c hall hh)
+          rw [if_neg (fun hh => hc hh.2)]
           exact ih _ _ h
       · rw [if_neg hall] at h
         simp only [List.map_map, Function.comp_def] at h
@@ -327,40 +356,104 @@ theorem jump_table_sound (rt : Option Nat → Nat) (conc : Option Nat → Bool) 
         by_cases hany : (c.types.takeWhile conc).any (fun ty => rt ty == rt dyn) = true
         · rw [if_pos hany] at h
           injection h with h; subst h
-          have := takeWhile_any conc (fun ty => rt ty == rt dyn) c.types hany
-          rw [if_pos ⟨hd', this⟩]
+          have hc : ct c = true := by
+            apply hconc
+            rw [List.any_eq_true] at hany ⊢
+            obtain ⟨ty, hty, hrt⟩ := hany
+            have hm := mem_takeWhile' conc c.types ty hty
+            refine ⟨ty, hm.2, ?_⟩
+            simp [hm.1, hrt]
+          rw [if_pos ⟨hd', hc⟩]
         · rw [if_neg hany] at h; simp at h
 
-/-- `typeswitch_first_match` (1): the jump-table optimisation is transparent – the dispatch is
-    "first clause, in source order, one of whose types matches; else the default clause". -/
-theorem typeswitch_first_match (rt : Option Nat → Nat) (conc : Option Nat → Bool) (dyn : Option Nat)
-    (cs : List Clause) :
-    tsDispatch rt conc dyn cs =
-      (match tsSequential (fun ty => rt ty == rt dyn) cs 0 with
+/-- `typeswitch_first_match` (1): with the table rule as written (`guard = true`) the jump-table
+    optimisation is transparent – the dispatch is "first clause, in source order, whose test
+    passes; else the default clause", also when interface cases precede concrete ones. -/
+theorem typeswitch_first_match (rt : Option Nat → Nat) (conc : Option Nat → Bool) (ct : Clause → Bool)
+    (dyn : Option Nat) (cs : List Clause)
+    (hconc : ∀ c : Clause, c.types.any (fun ty => conc ty && rt ty == rt dyn) = true → ct c = true)
+    (hconc2 : ∀ c : Clause, c.types.all conc = true → ct c = true →
+      c.types.any (fun ty => rt ty == rt dyn) = true) :
+    tsDispatch true rt conc ct dyn cs =
+      (match tsSequential ct cs 0 with
        | some i => some i
        | none => tsDefault cs 0) := by
-  unfold tsDispatch
-  simp only
+  unfold tsDispatch tsTable
+  simp only [if_true]
   split
   · rename_i i hi
     split at hi
-    · rw [jump_table_sound rt conc dyn cs 0 i hi]
+    · rw [jump_table_sound rt conc ct dyn hconc hconc2 cs 0 i hi]
     · simp at hi
   · rfl
 
+/-- the table rule found in fast/switch_type.go by the extractor IS the guarded one
+    (regenerated on every run: dropping the `seen.AllConcrete` guard breaks this obligation) -/
+theorem table_rule_extracted : Gen.C09.concreteMapGuardedByAllConcrete = true := by decide
+
+/-- the hypotheses of `typeswitch_first_match` hold for an `interface{}` tag, whatever the tests
+    of the interface cases are -/
+theorem ctEmpty_hconc (rt : Option Nat → Nat) (conc im : Option Nat → Bool) (dyn : Option Nat) (c : Clause)
+    (h : c.types.any (fun ty => conc ty && rt ty == rt dyn) = true) :
+    clauseTest (mtEmpty rt conc im dyn) (mtEmpty rt conc im dyn) c = true := by
+  have hany : c.types.any (mtEmpty rt conc im dyn) = true := by
+    rw [List.any_eq_true] at h ⊢
+    obtain ⟨ty, hty, hh⟩ := h
+    simp only [Bool.and_eq_true] at hh
+    exact ⟨ty, hty, by simp [mtEmpty, hh.1, hh.2]⟩
+  unfold clauseTest
+  split <;> exact hany
+
+theorem ctEmpty_hconc2 (rt : Option Nat → Nat) (conc im : Option Nat → Bool) (dyn : Option Nat) (c : Clause)
+    (hall : c.types.all conc = true)
+    (h : clauseTest (mtEmpty rt conc im dyn) (mtEmpty rt conc im dyn) c = true) :
+    c.types.any (fun ty => rt ty == rt dyn) = true := by
+  have hany : c.types.any (mtEmpty rt conc im dyn) = true := by
+    unfold clauseTest at h
+    split at h <;> exact h
+  rw [List.any_eq_true] at hany ⊢
+  obtain ⟨ty, hty, hh⟩ := hany
+  have hc := (List.all_eq_true.mp hall) ty hty
+  refine ⟨ty, hty, ?_⟩
+  simpa [mtEmpty, hc] using hh
+
+/-- `typeswitch_first_match` for the code as extracted and an `interface{}` tag: first matching
+    clause in source order, else default – for every list of clauses mixing concrete and interface
+    case types in any order. -/
+theorem typeswitch_first_match_code (rt : Option Nat → Nat) (conc im : Option Nat → Bool)
+    (dyn : Option Nat) (cs : List Clause) :
+    tsDispatch Gen.C09.concreteMapGuardedByAllConcrete rt conc
+        (clauseTest (mtEmpty rt conc im dyn) (mtEmpty rt conc im dyn)) dyn cs =
+      (match tsSequential (clauseTest (mtEmpty rt conc im dyn) (mtEmpty rt conc im dyn)) cs 0 with
+       | some i => some i
+       | none => tsDefault cs 0) := by
+  rw [table_rule_extracted]
+  exact typeswitch_first_match rt conc _ dyn cs (ctEmpty_hconc rt conc im dyn) (ctEmpty_hconc2 rt conc im dyn)
+
+/-- without the guard the table is NOT transparent: an interface case written before a concrete
+    one is skipped (the seeded change C09-1) -/
+example : tsDispatch false (fun o => o.getD 99) (fun o => o != some 50)
+    (clauseTest (mtEmpty (fun o => o.getD 99) (fun o => o != some 50) (fun _ => true) (some 2))
+                (mtEmpty (fun o => o.getD 99) (fun o => o != some 50) (fun _ => true) (some 2)))
+    (some 2) [⟨[some 50], false⟩, ⟨[some 2], false⟩, ⟨[some 3], false⟩] = some 1 := by decide
+example : tsDispatch true (fun o => o.getD 99) (fun o => o != some 50)
+    (clauseTest (mtEmpty (fun o => o.getD 99) (fun o => o != some 50) (fun _ => true) (some 2))
+                (mtEmpty (fun o => o.getD 99) (fun o => o != some 50) (fun _ => true) (some 2)))
+    (some 2) [⟨[some 50], false⟩, ⟨[some 2], false⟩, ⟨[some 3], false⟩] = some 0 := by decide
+
 /-- `typeswitch_first_match` (2): what "sequential" means – clause `i` is chosen iff it is not
-    the default, one of its types matches and no earlier non-default clause has a matching type. -/
-theorem tsSequential_first (mt : Option Nat → Bool) :
-    ∀ (cs : List Clause) (j i : Nat), tsSequential mt cs j = some i →
-      j ≤ i ∧ ∃ c, cs[i - j]? = some c ∧ c.isDefault = false ∧ c.types.any mt = true ∧
-        ∀ k, k < i - j → ∀ c', cs[k]? = some c' → ¬ (c'.isDefault = false ∧ c'.types.any mt = true) := by
+    the default, its test passes and no earlier non-default clause passes. -/
+theorem tsSequential_first (ct : Clause → Bool) :
+    ∀ (cs : List Clause) (j i : Nat), tsSequential ct cs j = some i →
+      j ≤ i ∧ ∃ c, cs[i - j]? = some c ∧ c.isDefault = false ∧ ct c = true ∧
+        ∀ k, k < i - j → ∀ c', cs[k]? = some c' → ¬ (c'.isDefault = false ∧ ct c' = true) := by
   intro cs
   induction cs with
   | nil => intro j i h; simp [tsSequential] at h
   | cons c cs ih =>
     intro j i h
     unfold tsSequential at h
-    by_cases hc : c.isDefault = false ∧ c.types.any mt = true
+    by_cases hc : c.isDefault = false ∧ ct c = true
     · rw [if_pos hc] at h
       injection h with h; subst h
       refine ⟨Nat.le_refl _, c, by simp, hc.1, hc.2, ?_⟩
@@ -377,16 +470,16 @@ theorem tsSequential_first (mt : Option Nat → Bool) :
           simp at hc'
           exact hearlier k (by omega) c' hc'
 
-theorem tsSequential_none (mt : Option Nat → Bool) :
-    ∀ (cs : List Clause) (j : Nat), tsSequential mt cs j = none →
-      ∀ c ∈ cs, ¬ (c.isDefault = false ∧ c.types.any mt = true) := by
+theorem tsSequential_none (ct : Clause → Bool) :
+    ∀ (cs : List Clause) (j : Nat), tsSequential ct cs j = none →
+      ∀ c ∈ cs, ¬ (c.isDefault = false ∧ ct c = true) := by
   intro cs
   induction cs with
   | nil => intro j _ c hc; simp at hc
   | cons c cs ih =>
     intro j h c' hc'
     unfold tsSequential at h
-    by_cases hc : c.isDefault = false ∧ c.types.any mt = true
+    by_cases hc : c.isDefault = false ∧ ct c = true
     · rw [if_pos hc] at h; simp at h
     · rw [if_neg hc] at h
       rcases List.mem_cons.mp hc' with rfl | hmem
@@ -570,9 +663,13 @@ example : methodBFS exCyc 0 "Q" 8 = some (none, 0) := by decide
 example : fieldsAt exU 2 "X" 1 = [[1, 1], [2, 1]] := by decide
 example : (FieldByName exU 8 [] 2 "X").map (·.1) = some (some [1, 1], 2) ∧ FCacheOK exU 8 [] :=
   ⟨by decide, by intro t n r h; simp at h⟩
-example : tsDispatch (fun o => o.getD 99) (fun _ => true) (some 2)
+example : tsDispatch true (fun o => o.getD 99) (fun _ => true)
+    (clauseTest (mtEmpty (fun o => o.getD 99) (fun _ => true) (fun _ => false) (some 2))
+                (mtEmpty (fun o => o.getD 99) (fun _ => true) (fun _ => false) (some 2))) (some 2)
     [⟨[some 1, some 5], false⟩, ⟨[], true⟩, ⟨[some 2], false⟩, ⟨[some 2, none], false⟩] = some 2 := by decide
-example : tsDispatch (fun o => o.getD 99) (fun _ => true) (some 7)
+example : tsDispatch true (fun o => o.getD 99) (fun _ => true)
+    (clauseTest (mtEmpty (fun o => o.getD 99) (fun _ => true) (fun _ => false) (some 7))
+                (mtEmpty (fun o => o.getD 99) (fun _ => true) (fun _ => false) (some 7))) (some 7)
     [⟨[some 1, some 5], false⟩, ⟨[], true⟩, ⟨[some 2], false⟩] = some 1 := by decide
 
 end Lookup
